@@ -193,6 +193,23 @@ pub fn c09_c10(d: &Digest, s: usize, out: &mut Vec<Violation>) {
                 }
             }
         }
+        // a subscriber attached for the whole run is offered every notification of the stream: each
+        // one enters its queue (blocking / DropOldest) or is refused because the queue is full
+        // (DropLatest) - none may vanish before the queue
+        if let (Some(r), Some(ch)) = (ref_stream(d, s), d.reg_chan.get(reg)) {
+            let first_dispatch = d.ev.iter().position(|e| matches!(&e.k, K::Inv { op: OpK::Dispatch { store, .. }, .. } if *store == s)).unwrap_or(usize::MAX);
+            let end = d.end_of_store(s).unwrap_or(0);
+            let whole_run = add_ret < first_dispatch && unsubs.iter().all(|u| u.inv > end);
+            if whole_run {
+                let consumer = d.reg_consumer.get(reg).cloned();
+                let sends = d.ev.iter().filter(|e| matches!(&e.k, K::ChSend { chan, .. } if chan == ch) && Some(e.tid) != consumer).count();
+                let refused = d.ev.iter().filter(|e| matches!(&e.k, K::ChFull { chan } if chan == ch)).count();
+                let offered = if policy == Policy::DropLatest { sends + refused } else { sends };
+                if offered != r.len() {
+                    v(out, "C10", "not-enqueued", format!("store {s}: {} notifications were sent while channeled subscriber {sub} ({policy:?}) was attached, but only {offered} reached its queue", r.len()));
+                }
+            }
+        }
         // everything queued was delivered (flush), at quiescence
         if let Some(ch) = d.reg_chan.get(reg) {
             let consumer: Option<usize> = d.reg_consumer.get(reg).cloned();
